@@ -5,6 +5,7 @@ import ast
 import re
 
 from sa import cfg as cfgmod
+from sa import absint
 from sa import model
 from sa import regexlang
 from sa.model import AnalysisError
@@ -206,6 +207,32 @@ def check_escapes(repo, rep):
     rep.floor('escape alternatives', len(alts), 6)
 
 
+def action_scope(mod, fi, depth=2):
+    """The token action together with the module-level helpers it hands
+    the token to: [(function node, name of the token in it)]."""
+    tok = fi.params()[-1]
+    out = [(fi.node, tok)]
+    seen = {fi.key}
+    work = [(fi.node, tok, 0)]
+    while work:
+        node, t, d = work.pop()
+        if d >= depth:
+            continue
+        for c in model.calls_in(node):
+            if not isinstance(c.func, ast.Name):
+                continue
+            h = mod.functions.get(c.func.id)
+            if h is None or h.key in seen or h.parent_func is not None:
+                continue
+            for i, a in enumerate(c.args):
+                if isinstance(a, ast.Name) and a.id == t and \
+                        i < len(h.params()):
+                    seen.add(h.key)
+                    out.append((h.node, h.params()[i]))
+                    work.append((h.node, h.params()[i], d + 1))
+    return out
+
+
 def check_quoted_tokens(repo, rep):
     mod = repo.module(LEX)
     specs = (('Lexer.t_QUOTED_STRING', "'"),
@@ -228,16 +255,17 @@ def check_quoted_tokens(repo, rep):
                construct=pat.strip())
         # the action strips exactly one character at each end
         tok = fi.params()[-1]
-        sl = [n for n in ast.walk(fi.node) if isinstance(
+        scope = action_scope(mod, fi)
+        sl = [n for node, tk in scope for n in ast.walk(node) if isinstance(
             n, ast.Subscript) and isinstance(n.slice, ast.Slice) and
-            model.norm(n.value) == tok + '.value']
+            model.norm(n.value) == tk + '.value']
         ok = len(sl) == 1 and model.norm(sl[0].slice.lower or ast.Constant(
             0)) == '1' and model.norm(sl[0].slice.upper or ast.Constant(
                 0)) == '-1' and sl[0].slice.step is None
         rep.ob('R16c', fi.key + '/strips-delimiters', ok,
                'the action must take %s.value[1:-1] (exactly the two '
                'delimiters)' % tok, loc=mod.loc(fi.node))
-        calls = [c for c in model.calls_in(fi.node)]
+        calls = [c for node, tk in scope for c in model.calls_in(node)]
         if quote == '`':
             reps = [c for c in calls if isinstance(c.func, ast.Attribute) and
                     c.func.attr == 'replace']
@@ -321,58 +349,74 @@ def check_keywords(repo, rep):
     # operator words are re-typed through the operator table, everything
     # else keeps its own text
     tok = fi.params()[-1]
-    ifs = [n for n in model.walk_shallow(fi.node) if isinstance(n, ast.If)]
-    ok = False
-    for i in ifs:
-        t = model.norm(i.test)
-        if t == '%s.value in self._operators_table' % tok:
-            ok = any(isinstance(s, ast.Assign) and model.norm(
-                s.targets[0]) == tok + '.type' and
-                '_operators_table[%s.value]' % tok in model.norm(s.value)
-                for s in i.body)
-            els = i.orelse
-            keep = any(
-                isinstance(s, ast.Assign) and model.norm(s.targets[0]) ==
-                tok + '.value' and model.norm(s.value) ==
-                'self.keyword_to_val.get(%s.type, %s.value)' % (tok, tok)
-                for s in els)
-            typ = any(
-                isinstance(s, ast.Assign) and model.norm(s.targets[0]) ==
-                tok + '.type' and model.norm(s.value) ==
-                "self.keywords.get(%s.value, 'KEYWORD_STRING')" % tok
-                for s in els)
-            ok = ok and keep and typ
-    allowed = {'self.keyword_to_val.get(%s.type, %s.value)' % (tok, tok)}
-    extra = [a for a in model.walk_shallow(fi.node)
-             if isinstance(a, ast.Assign) and model.norm(
-                 a.targets[0]) == tok + '.value' and
-             model.norm(a.value) not in allowed]
+    ok = kws is not None and k2v is not None
+    why = ''
+    extra = []
+    if ok:
+        table = {'and': ('and', 'BINARY_LEFT_ASSOCIATIVE', 'OP_7'),
+                 'not': ('not', 'PREFIX_UNARY', 'OP_3')}
+        cases = [('and', 'OP_7', 'and'), ('not', 'OP_3', 'not'),
+                 ('foo', 'KEYWORD_STRING', 'foo'),
+                 ('truex', 'KEYWORD_STRING', 'truex'),
+                 ('_x', 'KEYWORD_STRING', '_x'),
+                 ('andy', 'KEYWORD_STRING', 'andy'),
+                 ('\ufb01le', 'KEYWORD_STRING', '\ufb01le'),
+                 ('\uff46\uff4f\uff4f', 'KEYWORD_STRING',
+                  '\uff46\uff4f\uff4f'), ('\u00e9t\u00e9',
+                                              'KEYWORD_STRING',
+                                              '\u00e9t\u00e9')]
+        for w, tname in kws.items():
+            cases.append((w, tname, k2v.get(tname, w)))
+        for text, want_type, want_value in cases:
+            t = absint.Obj('token', value=text, type='KEYWORD_STRING',
+                           lexpos=0, lineno=1)
+            slf = absint.Obj('self', _operators_table=dict(table),
+                             keywords=dict(kws), keyword_to_val=dict(k2v))
+            it = absint.Interp(repo, mod)
+            args = {tok: t}
+            if len(fi.params()) > 1:
+                args[fi.params()[0]] = slf
+            try:
+                out = it.run(fi.node, args)
+            except absint.Unsupported as e:
+                raise AnalysisError('R16d: t_KEYWORD_STRING uses a '
+                                    'construct outside the modelled '
+                                    'fragment (%s)' % e)
+            gt, gv = t.attrs.get('type'), t.attrs.get('value')
+            same_v = gv is want_value if isinstance(
+                want_value, (bool, type(None))) else gv == want_value
+            if not (out[0] == 'return' and out[1] is t and
+                    gt == want_type and same_v):
+                ok = False
+                why = 'the word %r becomes a %s token with value %r ' \
+                      '(expected %s / %r)' % (text, gt, gv, want_type,
+                                              want_value)
+                if gt == 'KEYWORD_STRING' and not same_v:
+                    extra.append('%r -> %r' % (text, gv))
     rep.ob('R16d', fi.key + '/keeps-its-text', not extra,
            'a keyword that is not true/false/null must denote its own '
-           'text; the action rewrites it: %s' % [
-               model.norm(a) for a in extra], loc=mod.loc(
-                   extra[0] if extra else fi.node))
+           'text; the action rewrites it: %s' % extra,
+           loc=mod.loc(fi.node))
     ff = mod.func('Lexer.t_FUNC')
-    ftok = ff.params()[-1]
     ok_f = True
     bad_f = []
-    for a in model.walk_shallow(ff.node):
-        if isinstance(a, ast.Assign) and model.norm(
-                a.targets[0]) == ftok + '.value':
-            v = a.value
-            txt = model.norm(v)
-            if txt == '%s.value[:-1]' % ftok:
-                continue
-            if isinstance(v, ast.Name):
-                vals = [x.value for x in model.walk_shallow(ff.node)
-                        if isinstance(x, ast.Assign) and any(
-                            isinstance(t, ast.Name) and t.id == v.id
-                            for t in x.targets)]
-                if vals and all(model.norm(x) == '%s.value[:-1]' % ftok
-                                for x in vals):
-                    continue
+    for text in ('foo(', 'a_b1(', '\ufb01le(', '\u00e9t\u00e9('):
+        t = absint.Obj('token', value=text, type='FUNC', lexpos=0,
+                       lineno=1)
+        it = absint.Interp(repo, mod)
+        args = {ff.params()[-1]: t}
+        if ff.is_method and len(ff.params()) > 1:
+            args[ff.params()[0]] = absint.Obj('self')
+        try:
+            out = it.run(ff.node, args)
+        except absint.Unsupported as e:
+            raise AnalysisError('R16d: t_FUNC uses a construct outside the '
+                                'modelled fragment (%s)' % e)
+        if not (out[0] == 'return' and out[1] is t and
+                t.attrs.get('value') == text[:-1] and
+                t.attrs.get('type') == 'FUNC'):
             ok_f = False
-            bad_f.append(model.norm(a))
+            bad_f.append('%r -> %r' % (text, t.attrs.get('value')))
     rep.ob('R16d', ff.key + '/keeps-its-text', ok_f,
            'a function name must denote its own text (the token minus the '
            'opening parenthesis); the action rewrites it: %s' % bad_f,
@@ -380,7 +424,7 @@ def check_keywords(repo, rep):
     rep.ob('R16d', fi.key + '/word-dispatch', ok,
            'a word is an operator token if it is in the operator table, '
            'else true/false/null, else a KEYWORD_STRING carrying its own '
-           'text', loc=mod.loc(fi.node))
+           'text; %s' % why, loc=mod.loc(fi.node))
 
 
 def check_numbers(repo, rep):
@@ -398,21 +442,39 @@ def check_numbers(repo, rep):
     rep.ob('R16e', fi.key + '/covers-decimals', w is None,
            'the number token rejects the decimal literal %r' % w,
            loc=mod.loc(fi.node))
-    tok = fi.params()[-1]
-    ok = False
-    for i in [n for n in model.walk_shallow(fi.node)
-              if isinstance(n, ast.If)]:
-        if model.norm(i.test) == "'.' in %s.value" % tok:
-            a = [s for s in i.body if isinstance(s, ast.Assign)]
-            b = [s for s in i.orelse if isinstance(s, ast.Assign)]
-            ok = len(a) == 1 and len(b) == 1 and model.norm(
-                a[0].value) == 'float(%s.value)' % tok and model.norm(
-                b[0].value) == 'int(%s.value)' % tok and model.norm(
-                a[0].targets[0]) == tok + '.value' == model.norm(
-                b[0].targets[0])
+    # which converter is applied to which class of numeral: abstract
+    # evaluation of the action with int()/float() as uninterpreted
+    # functions, on one representative per class of the token language
+    ok = True
+    why = ''
+    for text, want in (('12', 'int'), ('0', 'int'),
+                       ('1' + '0' * 40, 'int'), ('1.5', 'float'),
+                       ('10.25', 'float')):
+        def oracle(name, args, kwargs):
+            if name in ('builtins.int', 'builtins.float'):
+                return (absint.Sym('%s(%s)' % (name[9:], args[0])),)
+            return None
+        t = absint.Obj('token', value=text, type='NUMBER', lexpos=0,
+                       lineno=1)
+        it = absint.Interp(repo, mod, oracle)
+        args = {fi.params()[-1]: t}
+        if fi.is_method and len(fi.params()) > 1:
+            args[fi.params()[0]] = absint.Obj('self')
+        try:
+            out = it.run(fi.node, args)
+        except absint.Unsupported as e:
+            raise AnalysisError('R16e: t_NUMBER uses a construct outside '
+                                'the modelled fragment (%s)' % e)
+        v = t.attrs.get('value')
+        good = out[0] == 'return' and out[1] is t and isinstance(
+            v, absint.Sym) and v.name == '%s(%s)' % (want, text)
+        if not good:
+            ok = False
+            why = 'for the numeral %r the token value becomes %r' % (
+                text, v)
     rep.ob('R16e', fi.key + '/conversion', ok,
            'a numeral with a dot must be converted with float(), one '
-           'without with int() (exact at any magnitude)',
+           'without with int() (exact at any magnitude); %s' % why,
            loc=mod.loc(fi.node))
 
 
